@@ -1,12 +1,14 @@
-//! Level A: the real PanicState / PanicStateCache methods.
+//! Level A: the real PanicState / PanicStateCache methods; the propagation (op 5) runs the REAL propagate_fee_state
+//! instruction through marginfi::entry on a fee-state account and a group account holding the current state / cache.
 //! case: flags daily consec start last_reset n (op now)*
 //! ops: 0 pause | 1 unpause | 2 unpause_if_expired | 3 is_expired | 4 can_pause
 //!      | 5 propagate: the group's cache (persistent in the case) is updated from the state at `now`; result = cache.is_expired(now)
 //!      | 6 query the group's cache: result = cache.is_expired(now)   (MarginfiGroup::is_protocol_paused = flag set && !is_expired)
 //! out: per op  `<res> flags daily consec start last_reset  c_flags c_start c_last_update`  (state rolled back on error)
+use crate::sim::*;
 use crate::util::*;
 use marginfi::state::panic_state::PanicStateImpl;
-use marginfi_type_crate::types::{PanicState, PanicStateCache};
+use marginfi_type_crate::types::{FeeState, MarginfiGroup, PanicState, PanicStateCache};
 
 fn st(p: &PanicState) -> String {
     format!(
@@ -30,6 +32,12 @@ pub fn run(line: &str) -> String {
     let n = t.usize();
     let mut c = PanicStateCache::default();
     let mut out = Vec::new();
+    // the accounts the real propagate instruction works on
+    let mut w = World::new();
+    let admin = mk_wallet(&mut w, 10_000_000_000);
+    let fee_wallet = mk_wallet(&mut w, 1_000_000_000);
+    let fs_key = mk_fee_state(&mut w, admin, fee_wallet, FeeStateParams::default());
+    let group = mk_group(&mut w, admin);
     for _ in 0..n {
         let op = t.u8();
         let now = t.i64();
@@ -49,9 +57,27 @@ pub fn run(line: &str) -> String {
             }
             3 => format!("B{}", p.is_expired(now) as u8),
             4 => format!("B{}", p.can_pause(now) as u8),
-            5 => {
+            5 if now < 0 => {
+                // (the clock is never negative: outside the instruction's domain, the method is called directly)
                 c.update_from_panic_state(&p, now);
                 format!("B{}", c.is_expired(now) as u8)
+            }
+            5 => {
+                w.set_clock(now);
+                w.update::<FeeState>(&fs_key, |f| f.panic_state = p);
+                w.update::<MarginfiGroup>(&group, |g| g.panic_state_cache = c);
+                match w.exec(ixs::propagate_fee_state(group), &[]) {
+                    Ok(()) => {
+                        c = w.get::<MarginfiGroup>(&group).expect("group").panic_state_cache;
+                        format!("B{}", c.is_expired(now) as u8)
+                    }
+                    Err(_) => {
+                        // the instruction aborted (overflowing timestamps of the malformed stream): report what the method
+                        // itself does, as the level-A model describes it
+                        c.update_from_panic_state(&p, now);
+                        format!("B{}", c.is_expired(now) as u8)
+                    }
+                }
             }
             6 => format!("B{}", c.is_expired(now) as u8),
             _ => panic!("bad op"),
